@@ -14,6 +14,11 @@ use bytes::{Buf, BytesMut};
 use std::io::Cursor;
 use tokio::io::{AsyncReadExt, AsyncWriteExt};
 use tokio::net::TcpStream;
+use tokio::time;
+use tokio::time::Duration;
+
+/// Longest time one message may take to be handed over to the socket (one keep-alive interval).
+const WRITE_TIMEOUT_SEC: u64 = 120;
 
 pub struct Connection {
     pub addr: String,
@@ -75,7 +80,14 @@ impl Connection {
         }
 
         if let Some(socket) = self.socket.as_mut() {
-            socket.write_all(msg.data().as_slice()).await?;
+            // Peer which stopped reading blocks this write for good, and no timer of the handler
+            // runs meanwhile: give up on such a connection
+            let data = msg.data();
+            let write = socket.write_all(data.as_slice());
+            match time::timeout(Duration::from_secs(WRITE_TIMEOUT_SEC), write).await {
+                Ok(result) => result?,
+                Err(_) => return Err(Error::KeepAliveTimeout.into()),
+            }
         }
 
         Ok(())
